@@ -29,7 +29,8 @@ STRATA = ["clean"]
 PER = {"quick": {"clean": 200}, "thorough": {"clean": 1000}}
 SHARD_TIMEOUT = {"quick": 600, "thorough": 3600}
 
-IDENT_KEYS = ["k", "key2", "ünï", "_private", "data", "root", "x1", "CamelCase", "name", "sync"]
+IDENT_KEYS = ["k", "key2", "ünï", "_private", "data", "root", "x1", "CamelCase", "name", "sync", "_tag_", "_", "_a_b_",
+              "_repr_html_", "x_", "__x", "x__"]
 ODD_KEYS = ["x y", "", "1", "a-b", "with\nnewline", "😀"]
 INIT = {"a": 1, "c": {"q": 2, "n": {"m": {"deep": 1}}}, "l": [0, {"in_list": True}], "k": "exists"}
 PARENTS = [[], ["c"], ["l", 1], ["c", "n", "m"]]
